@@ -293,6 +293,10 @@ def _load_yaml(path: Path) -> Any:
     except FileNotFoundError:
         print(f"File not found: {path}", file=sys.stderr)
         raise SystemExit(EXIT_FILE_ERROR) from None
+    except (OSError, UnicodeDecodeError) as exc:
+        # a directory, a file without read permission, bytes that are not text
+        print(f"Cannot read file {path}: {exc}", file=sys.stderr)
+        raise SystemExit(EXIT_FILE_ERROR) from None
     except yaml.YAMLError as exc:
         print(f"YAML error: {exc}", file=sys.stderr)
         raise SystemExit(EXIT_CONFIG_ERROR) from None
